@@ -37,6 +37,13 @@ var DefaultPartitions = 4
 var DefaultMaxJitter = 5 * time.Second
 var DefaultTTL = 60 * 60 * time.Second
 
+// TimeKeyLayout renders the instant of a time-bucket key.  The width
+// is fixed (nine fraction digits, UTC), so that the bytewise order of
+// the keys is the order of the instants.  time.RFC3339Nano trims
+// trailing zeros: "05.55Z" sorted before "05.5Z", and "05Z" after
+// every "05.xZ".
+const TimeKeyLayout = "2006-01-02T15:04:05.000000000Z07:00"
+
 var NotFound = errors.New("not found")
 var Exists = errors.New("job exists")
 
@@ -254,7 +261,7 @@ func (s *Cron) update(j *Job) (func(*bolt.Tx) error, error) {
 	oldTid := j.TId
 
 	next := j.at
-	ts := next.Format(time.RFC3339Nano)
+	ts := next.UTC().Format(TimeKeyLayout)
 	later := next.Sub(time.Now().UTC())
 	log.Printf("Cron.update %s to %s (%v) evict=%v", j.aid, ts, later, j.Evict)
 
@@ -372,7 +379,7 @@ func (s *Cron) work(part string) func(tx *bolt.Tx) error {
 		c := tx.Bucket([]byte("time" + part)).Cursor()
 
 		min := []byte("")
-		max := []byte(time.Now().UTC().Format(time.RFC3339Nano))
+		max := []byte(time.Now().UTC().Format(TimeKeyLayout))
 		limit := 10
 
 		for k, v := c.Seek(min); k != nil && bytes.Compare(k, max) <= 0; k, v = c.Next() {
